@@ -225,6 +225,9 @@ class ExtendFill(Unit):
             ctx.ensure("C17 exactly the missing leaves are filled from the base tree", z3.And(toz(y["a"]["b"]) == base["a"]["b"], toz(y["a"]["c"]) == base["a"]["c"], toz(y["e"]) == base["e"]))
 
 
+DenormAlgebra.replay = lambda self, label, clause, probes, model: {"kind": "pure", "which": "denormalize", "probes": probes}
+
+
 UNITS = [DenormInit(), DenormAlgebra(), ChainOrder("apply"), ChainOrder("inv"), ChainLemma(), ExpIdentity("Exponential"), ExpIdentity("Identity"), SharedRoundTrip(), ExtendFill()]
 EXTRA = dict(assumptions=["floats as reals: inv(apply(x)) = x holds exactly (the statement allows floating-point rounding)",
                           "every Chain member is invertible on its domain (hypothesis of the chain lemma); induction over the chain length is the trusted meta-step",
